@@ -5,6 +5,7 @@ import DimodProofs.HeaderContracts
 import DimodProofs.ZipEnd
 import DimodProofs.CqmClosed
 import DimodProofs.DqmClosed
+import DimodProofs.CqmDomain
 
 /-! # C10 — a truncated model file never loads as a different model -/
 
@@ -380,5 +381,13 @@ theorem truncation_safe_dqm_closed (crc32 : Bytes → Nat) (inflate : Bytes → 
     (serializeLabels labels) (dqm_header_ok _ _ hlen) wf h22 hsig hz
     (fun i hi => by have := hocc i hi; simp only [List.length_append] at this; omega) hdir hnpz (by omega)
     (fun _ => ⟨VarsOK_real _ hl hvlen, by rw [serializeLabels_length, hn]⟩)
+
+/-- non-vacuity: the signature side condition is a Boolean check (`sigOnlyAtEnd`, sound for the hypothesis `hocc` of the
+    truncation theorems) and holds e.g. for two payload bytes followed by the end record of an empty archive; the domain
+    hypothesis `InDomain` is met by the concrete CQM of `Properties/C09.lean`.  On every generated file the harness evaluates
+    the same condition (tick `eocd sweep …`). -/
+example : sigOnlyAtEnd ([1, 2] ++ eocdRecord 0 0 0) = true ∧
+    (∀ i, SigAt ([1, 2] ++ eocdRecord 0 0 0) i → ([1, 2] ++ eocdRecord 0 0 0).length ≤ i + 22) :=
+  ⟨by decide, sigOnlyAtEnd_sound _ (by decide)⟩
 
 end C10
